@@ -5,7 +5,6 @@
    The models mirror the code that exists (same steps, same branches), including its remaining defects:
      - _standardize_connectivity guesses the index base as the minimum real entry when the start_index
        attribute is absent (wrong when element 0 is not referenced by the table);
-     - _read_scrip keeps repeated corners (SCRIP padding) as face nodes.
    Definitions only.  Node positions are opaque tokens (pairs of Z, ordered lexicographically exactly
    like the float pairs they stand for); index arithmetic is int64 with wrap-around where the code can
    overflow. *)
@@ -140,14 +139,28 @@ Definition c01_mpas_plain (t : table) : table :=
 Definition c01_mpas_enc_row (f : list Z) (junk : list Z) : row := map (fun x => x + 1) f ++ junk.
 
 (* ---------------------------------------------------------------------------------------------- *)
-(* SCRIP: io/_scrip.py — np.unique over the (lon, lat) corner pairs rebuilds the shared nodes        *)
+(* SCRIP: io/_scrip.py — np.unique over the (lon, lat) corner pairs rebuilds the shared nodes; trailing
+   repetitions of a cell's last corner (SCRIP padding of cells with fewer corners) become -1 -> fill     *)
+
+(* on the reversed row: np.flip(np.logical_and.accumulate(np.flip(same_as_prev))) — entries equal to their
+   predecessor, as long as everything after them is too *)
+Fixpoint c01_drop_rep (l : list Z) : list Z :=
+  match l with
+  | x :: l' => match l' with
+               | y :: _ => if x =? y then (-1) :: c01_drop_rep l' else l
+               | [] => l
+               end
+  | [] => []
+  end.
+
+Definition c01_scrip_row (r : list Z) : row :=
+  map (fun x => if x =? -1 then FILL else x) (rev (c01_drop_rep (rev r))).
 
 Definition c01_scrip (corners : list (list (Z * Z))) (w : nat) : list (Z * Z) * table :=
   let flat := concat corners in
   let u := unique_pairs flat in
   let inv := map (fun p => Z.of_nat (index_of p u)) flat in
-  (* _replace_fill_values(unq_inv, original_fill=-1, ...): indices are >= 0, nothing is replaced *)
-  (u, chunk w (length corners) (map (fun x => if x =? -1 then FILL else x) inv)).
+  (u, map c01_scrip_row (chunk w (length corners) inv)).
 
 (* ---------------------------------------------------------------------------------------------- *)
 (* Exodus: io/_exodus.py — every connectN block is padded with zeros to max_face_nodes and stacked
